@@ -320,11 +320,8 @@ func (in *Interp) flushPathMarks() {
 // ---------------------------------------------------------------- decisions
 
 func (in *Interp) query(extra ...*Term) string {
-	as := make([]*Term, 0, len(in.pc)+len(extra))
-	as = append(as, in.pc...)
-	as = append(as, in.dynAxioms()...)
-	as = append(as, extra...)
-	r, _ := in.sol.Check(as, nil)
+	ex := append(in.dynAxioms(), extra...)
+	r, _ := in.sol.CheckPC(in.pc, ex, nil)
 	return r
 }
 
@@ -459,8 +456,7 @@ func (in *Interp) concretize(t *Term, what string) uint64 {
 	var excl []*Term
 	capN := in.ex.cfg.ConcCap
 	for {
-		as := append(append(append([]*Term{}, in.pc...), in.dynAxioms()...), excl...)
-		r, m := in.sol.Check(as, []*Term{t})
+		r, m := in.sol.CheckPC(in.pc, append(in.dynAxioms(), excl...), []*Term{t})
 		if r == "unsat" {
 			break
 		}
@@ -512,7 +508,7 @@ func (in *Interp) model() ([]ReplayItem, bool) {
 	var vals map[int]uint64
 	ok := true
 	if len(want) > 0 {
-		r, m := in.sol.Check(append(append([]*Term{}, in.pc...), in.dynAxioms()...), want)
+		r, m := in.sol.CheckPC(in.pc, in.dynAxioms(), want)
 		if r != "sat" || m == nil {
 			ok = false
 		}
